@@ -22,7 +22,7 @@ ASSUMPTIONS = [
     "a column involves a variable iff its label (level names removed) mentions the variable",
 ]
 
-UNSEEN = {"f": "zz", "g": "zz", "h": "zz", "u": "zz", "k": 99}
+UNSEEN = {"f": "zz", "g": "zz", "h": "zz", "u": "zz", "k": 99, "v": 77}
 
 
 @st.composite
@@ -57,7 +57,7 @@ def new_frames(case):
                 if case.get("as_categorical"):
                     c2["categories"] = list(c["categories"]) + [UNSEEN[c["name"]]]
                 else:
-                    c2 = {"name": c["name"], "kind": "str", "values": vals}
+                    c2 = {"name": c["name"], "kind": "str" if all(isinstance(v, str) for v in vals) else "object", "values": vals}
         inj["cols"].append(c2)
     return frames.build(base), frames.build(inj)
 
@@ -174,6 +174,11 @@ def check_group(ctx, case, where, m, ref, got, injected_rows):
         blockb = zb[:, sb]
         ng = len(term.groups)
         wb = sb.stop - sb.start
+        st_ = m.slices[name]
+        if wb != st_.stop - st_.start or wb % ng:
+            ctx.fail("group", case, f"{where}: on rows without any unseen value {name} has {wb} columns, the training matrix has "
+                     f"{st_.stop - st_.start} for {ng} groups", "width_without_new_groups")
+            return
         p = wb // ng
         fvars = [v for v in injected_rows if v in rich.bases(term.factor.name)]
         newrows = sorted(set().union(*[injected_rows[v] for v in fvars])) if fvars else []
